@@ -108,6 +108,19 @@ let run_tree (c : case) =
             Stdlib.List.iter (fun e -> pr " %s" (evtok e))
               (Iter.ev_run (nat_of_int (2 * sz + 2)) (Iter.iter_event (Iter.node_into_iter t)));
             pr "\n" end;
+          if want "events" then begin
+            (* event views of iterators that hold several pending nodes *)
+            for k = 1 to 4 do
+              let st = ref (Iter.node_into_iter t) in
+              for _ = 1 to k do st := snd (Iter.iter_next !st) done;
+              pr "advev %d" k;
+              Stdlib.List.iter (fun e -> pr " %s" (evtok e)) (Iter.ev_run (nat_of_int (2 * sz + 2)) (Iter.iter_event !st));
+              pr "\n"
+            done;
+            pr "multiev";
+            Stdlib.List.iter (fun e -> pr " %s" (evtok e))
+              (Iter.ev_run (nat_of_int (4 * sz + 4)) (Iter.iter_event (Iter.iter_new [t; t])));
+            pr "\n" end;
           if want "sub" then begin
             let n = Stdlib.List.length all in
             Stdlib.List.iteri
